@@ -524,6 +524,9 @@ func c10Check(c *harness.Ctx) {
 	base := c10Scenarios(c.Thorough())
 	scns := withLegacy(base, legacyEvery(c.Thorough(), 4))
 	scns = append(scns, withHold0(base, legacyEvery(c.Thorough(), 5)*2)[len(base):]...)
+	// two shutdown calls at once (DeletePeer || Close, Close || Close), also with a slow callback in the way:
+	// C01's scenarios, judged at the return of Close by the callback monitor
+	scns = append(scns, c01ConcurrentTails("C10", c.Thorough(), []int{4, 5}, []int{4, 5})...)
 	c.Res.Extra["scenarios_total"] = float64(len(scns)) / float64(max(c.Of, 1))
 	for i, s := range scns {
 		if !c.Mine(i) {
@@ -547,6 +550,9 @@ func init() {
 		Replay: scnReplay("C10", func(name string) *Scn {
 			var si, trig int
 			parts := strings.Split(name, "/")
+			if len(parts) == 6 {
+				return c01LookupFor("C10", name)
+			}
 			if len(parts) != 3 {
 				return nil
 			}
